@@ -7,6 +7,7 @@
 //! exit 1: at least one `VIOLATION property=<id> replay=<path>` line was printed
 //! exit 2: machinery error (never a verdict)
 
+mod avro;
 mod bn;
 mod drv;
 mod fxgraph;
